@@ -39,3 +39,229 @@ Example C06_round_trip_instance :
   format_frame (mk_header 192 1 1024) [] = [5; 100; 5; 192; 1; 0; 0; 4; 233; 33] /\
   header_ok 192 1 1024.
 Proof. split; [vm_compute; reflexivity|unfold header_ok; lia]. Qed.
+
+(* ================= incrementality of the parser (Link/ParserIncr.v) ========================== *)
+From Dnp3V Require Import Link.ParserIncr.
+
+(* more input never changes a decision already taken; an undecided parse continues exactly where
+   it stopped *)
+Theorem C06_parse_impl_extends : forall st a b,
+  let '(st1, r1, res) := parse_impl st a in
+  if match res with PNeedMore => true | _ => false end
+  then parse_impl st (a ++ b) = parse_impl st1 (r1 ++ b)
+  else parse_impl st (a ++ b) = (st1, r1 ++ b, res).
+Proof. exact parse_impl_extends. Qed.
+Print Assumptions C06_parse_impl_extends.
+
+(* re-running an undecided parse on its leftover without new bytes changes nothing *)
+Theorem C06_parse_impl_needmore_idem : forall st a st1 r1,
+  parse_impl st a = (st1, r1, PNeedMore) -> parse_impl st1 r1 = (st1, r1, PNeedMore).
+Proof. exact parse_impl_needmore_idem. Qed.
+Print Assumptions C06_parse_impl_needmore_idem.
+
+(* the leftover is a suffix of the input; a frame resets the state; a decision consumes at least
+   one byte unless the parser was started in ReadBody with an empty trailer (st_ok excludes only
+   ReadBody _ 0, a state in which the parser never stops) *)
+Theorem C06_parse_impl_consumes : forall st a,
+  let '(st1, r1, res) := parse_impl st a in
+  (exists p, a = p ++ r1) /\
+  match res with
+  | PNeedMore => st_ok st1
+  | PFrame _ _ => st1 = FindSync1 /\ (st_ok st -> (length r1 < length a)%nat)
+  | PErr _ => st_ok st -> (length r1 < length a)%nat
+  end.
+Proof. exact parse_impl_consumes. Qed.
+Print Assumptions C06_parse_impl_consumes.
+
+(* ================= Discard mode is the ideal scanner ============================================ *)
+
+(* `scan` (Link/ParserIncr.v) tries the aligned parser at every offset in order, drops one byte on
+   an error, keeps an incomplete candidate whole; the loop of Parser::parse is that scanner for
+   every fuel above the length, so the fuel S (length cur) never runs out *)
+Theorem C06_parse_discard_is_scan : forall fuel cur, (length cur < fuel)%nat ->
+  parse_discard fuel cur = scan cur.
+Proof. exact parse_discard_is_scan. Qed.
+Print Assumptions C06_parse_discard_is_scan.
+
+Theorem C06_parse_discard_fuel_sufficient : forall fuel cur, (length cur < fuel)%nat ->
+  parse_discard fuel cur = parse_discard (S (length cur)) cur.
+Proof. exact parse_discard_fuel_sufficient. Qed.
+Print Assumptions C06_parse_discard_fuel_sufficient.
+
+(* characterisation without reference to scan: the state is ignored, the answer is the aligned
+   parse at the first offset i that is not an error; an incomplete candidate stays in the buffer *)
+Theorem C06_parse_discard_spec : forall st cur, exists i, (i <= length cur)%nat /\
+  (forall j, (j < i)%nat -> exists st' r e, parse_impl FindSync1 (skipn j cur) = (st', r, PErr e)) /\
+  match parse Discard st cur with
+  | (st1, r1, PNeedMore) =>
+      st1 = FindSync1 /\ r1 = skipn i cur /\
+      exists st' r', parse_impl FindSync1 (skipn i cur) = (st', r', PNeedMore)
+  | (st1, r1, PFrame h p) => st1 = FindSync1 /\ parse_impl FindSync1 (skipn i cur) = (st1, r1, PFrame h p)
+  | (_, _, PErr _) => False
+  end.
+Proof. exact parse_discard_spec. Qed.
+Print Assumptions C06_parse_discard_spec.
+
+Theorem C06_discard_extends : forall s1 s2 s3 a b,
+  let '(st1, r1, res) := parse Discard s1 a in
+  if match res with PNeedMore => true | _ => false end
+  then parse Discard s2 (a ++ b) = parse Discard s3 (r1 ++ b)
+  else parse Discard s2 (a ++ b) = (st1, r1 ++ b, res).
+Proof. exact discard_extends. Qed.
+Print Assumptions C06_discard_extends.
+
+(* a valid frame that follows line noise is found *)
+Theorem C06_discard_resync : forall ctrl dest src payload noise rest st,
+  header_ok ctrl dest src -> bytes_ok payload -> (length payload <= 250)%nat ->
+  (forall i, (i < length noise)%nat ->
+     exists st' r e, parse_impl FindSync1 (skipn i noise ++ format_frame (mk_header ctrl dest src) payload ++ rest)
+                     = (st', r, PErr e)) ->
+  parse Discard st (noise ++ format_frame (mk_header ctrl dest src) payload ++ rest)
+  = (FindSync1, rest, PFrame (mk_header ctrl dest src) payload).
+Proof. exact discard_resync. Qed.
+Print Assumptions C06_discard_resync.
+
+(* non-vacuity of the noise hypothesis: any noise without the byte 05 satisfies it *)
+Theorem C06_discard_resync_no_start : forall ctrl dest src payload noise rest st,
+  header_ok ctrl dest src -> bytes_ok payload -> (length payload <= 250)%nat ->
+  Forall (fun x => x <> 5) noise ->
+  parse Discard st (noise ++ format_frame (mk_header ctrl dest src) payload ++ rest)
+  = (FindSync1, rest, PFrame (mk_header ctrl dest src) payload).
+Proof. exact discard_resync_no_start. Qed.
+Print Assumptions C06_discard_resync_no_start.
+
+(* ... and noise that does contain start bytes (05 64 followed by a short length byte) *)
+Example C06_discard_resync_instance :
+  parse Discard ReadHeader ([5; 100; 1; 7] ++ format_frame (mk_header 192 1 1024) [] ++ [9])
+  = (FindSync1, [9], PFrame (mk_header 192 1 1024) []).
+Proof. vm_compute. reflexivity. Qed.
+
+(* ================= the read buffer (Link/ReaderProofs.v) ========================================= *)
+
+Theorem C06_read_buffer_size_ge_293 : forall frag, (293 <= read_buffer_size frag)%nat.
+Proof. exact num_link_frames_bound. Qed.
+Print Assumptions C06_read_buffer_size_ge_293.
+
+(* key fact: when `parse` asks for more data, fewer than 292 bytes stay buffered (Close mode: the
+   leftover of parse_impl; Discard mode: the incomplete candidate).  pstate_ok bounds the trailer a
+   ReadBody state waits for by 282; it is preserved. *)
+Theorem C06_parse_needmore_leftover : forall mode st a st1 r1,
+  pstate_ok st -> bytes_ok a -> parse mode st a = (st1, r1, PNeedMore) ->
+  pstate_ok st1 /\ (length r1 < 292)%nat.
+Proof. exact parse_needmore_leftover. Qed.
+Print Assumptions C06_parse_needmore_leftover.
+
+(* `reachable cfg` = rstate_init closed under `feed` with reads made of bytes (overflowing or not) *)
+Theorem C06_readbuffer_inv : forall cfg frag rs, r_cap cfg = read_buffer_size frag -> reachable cfg rs ->
+  (r_begin rs + length (r_unread rs) <= r_cap cfg)%nat.
+Proof. exact readbuffer_inv. Qed.
+Print Assumptions C06_readbuffer_inv.
+
+(* whenever the read_frame loop is about to read, the slice it offers to the socket is not empty *)
+Theorem C06_ready_to_read_has_space : forall cfg rs rs1, (293 <= r_cap cfg)%nat -> rs_inv cfg rs ->
+  step_parse cfg rs = (rs1, None) -> (0 < r_writable cfg (shift_if_full cfg rs1))%nat.
+Proof. exact ready_to_read_has_space. Qed.
+Print Assumptions C06_ready_to_read_has_space.
+
+Theorem C06_readbuffer_space : forall cfg frag rs c rs' obs, r_cap cfg = read_buffer_size frag ->
+  reachable cfg rs -> bytes_ok c -> feed cfg rs c = (rs', obs, true) -> (0 < r_writable cfg rs')%nat.
+Proof. exact readbuffer_space. Qed.
+Print Assumptions C06_readbuffer_space.
+
+(* ================= chunking independence ========================================================== *)
+
+(* `frames_of mode stream` (Link/ReaderProofs.v): parse from FindSync1 on what remains, collect the
+   frames, stop at the first error, end when the parser wants more.  However the stream is cut
+   into non-empty reads that fit the writable space, the reader delivers exactly that. *)
+Theorem C06_chunking_independent : forall mode frag cs,
+  Forall (fun c => c <> []) cs ->
+  ~ In OOverflow (run_link mode Stream frag cs) ->
+  run_link mode Stream frag cs = frames_of mode (concat cs).
+Proof. exact chunking_independent. Qed.
+Print Assumptions C06_chunking_independent.
+
+(* the same from any waiting state and for any capacity *)
+Theorem C06_chunking_independent_from : forall cfg, r_read cfg = Stream -> forall cs rs,
+  quiet (r_mode cfg) rs -> Forall (fun c => c <> []) cs ->
+  ~ In OOverflow (run_feeds cfg rs cs) ->
+  run_feeds cfg rs cs = frames_from (r_mode cfg) (r_pstate rs) (r_unread rs ++ concat cs)
+  /\ ~ In OStall (run_feeds cfg rs cs).
+Proof. exact chunking_independent_from. Qed.
+Print Assumptions C06_chunking_independent_from.
+
+Theorem C06_feed_fuel_sufficient : forall cfg rs c rs' obs go, st_ok (r_pstate rs) ->
+  feed cfg rs c = (rs', obs, go) -> ~ In OStall obs /\ st_ok (r_pstate rs').
+Proof. exact feed_fuel_sufficient. Qed.
+Print Assumptions C06_feed_fuel_sufficient.
+
+Theorem C06_run_feeds_no_stall : forall cfg cs rs, st_ok (r_pstate rs) -> ~ In OStall (run_feeds cfg rs cs).
+Proof. exact run_feeds_no_stall. Qed.
+Print Assumptions C06_run_feeds_no_stall.
+
+(* non-vacuity: one frame delivered a byte at a time, and split 4 + 6, in both error modes *)
+Example C06_chunking_instance :
+  let f := format_frame (mk_header 192 1 1024) [] in
+  run_link Close Stream 249 (map (fun b => [b]) f) = [OFrame (mk_header 192 1 1024) []] /\
+  run_link Discard Stream 249 [firstn 4 f; skipn 4 f] = [OFrame (mk_header 192 1 1024) []] /\
+  frames_of Discard f = [OFrame (mk_header 192 1 1024) []].
+Proof. vm_compute. repeat split; reflexivity. Qed.
+
+(* ================= datagram mode never stitches ================================================== *)
+
+Theorem C06_datagram_feed_resets : forall cfg c rs' obs, r_read cfg = Datagram ->
+  feed cfg rstate_init c = (rs', obs, true) -> rs' = rstate_init.
+Proof. exact datagram_feed_resets. Qed.
+Print Assumptions C06_datagram_feed_resets.
+
+(* `dgram_frames mode cs`: the frames of each read parsed ALONE, up to the first read with an error *)
+Theorem C06_datagram_no_stitch : forall cfg cs, r_read cfg = Datagram ->
+  Forall (fun c => c <> []) cs ->
+  ~ In OOverflow (run_feeds cfg rstate_init cs) ->
+  run_feeds cfg rstate_init cs = dgram_frames (r_mode cfg) cs.
+Proof. exact datagram_no_stitch. Qed.
+Print Assumptions C06_datagram_no_stitch.
+
+(* non-vacuity: the frame split 4 + 6 is not delivered (Discard: both halves are dropped, Close:
+   the second half is an error), a whole frame in the next datagram is *)
+Example C06_datagram_instance :
+  let f := format_frame (mk_header 192 1 1024) [] in
+  run_link Discard Datagram 249 [firstn 4 f; skipn 4 f; f] = [OFrame (mk_header 192 1 1024) []] /\
+  run_link Close Datagram 249 [firstn 4 f; skipn 4 f; f] = [OErr (RParse (EStart1 1))].
+Proof. vm_compute. split; reflexivity. Qed.
+
+(* ================= damaged frames are not delivered ============================================== *)
+
+(* any 1..3 flipped bits anywhere in a frame make the aligned parser report an error, whatever
+   follows the frame *)
+Theorem C06_damaged_frame_not_delivered : forall ctrl dest src payload rest ps,
+  header_ok ctrl dest src -> bytes_ok payload -> (length payload <= 250)%nat ->
+  NoDup ps -> (1 <= length ps <= 3)%nat ->
+  Forall (fun p => (p < 8 * length (format_frame (mk_header ctrl dest src) payload))%nat) ps ->
+  exists st r e,
+    parse_impl FindSync1 (flip ps (format_frame (mk_header ctrl dest src) payload) ++ rest) = (st, r, PErr e).
+Proof. exact damaged_frame_not_delivered. Qed.
+Print Assumptions C06_damaged_frame_not_delivered.
+
+Example C06_damaged_instance :
+  parse_impl FindSync1 (flip [3; 40; 79]%nat (format_frame (mk_header 192 1 1024) []))
+  = (FindSync1, [100; 5; 192; 1; 1; 0; 4; 233; 161], PErr (EStart1 13)).
+Proof. vm_compute. reflexivity. Qed.
+
+(* the header intact, one bit flipped in the second body block (bit 8 * (10 + 18) + 5) *)
+Example C06_damaged_body_instance :
+  parse_impl FindSync1 (flip [229]%nat (format_frame (mk_header 196 1 1024) (repeat 7 20)) ++ [1; 2])
+  = (ReadBody (mk_header 196 1 1024) 24, [1; 2], PErr EBodyCrc).
+Proof. vm_compute. reflexivity. Qed.
+
+(* the read buffer invariant along Reader::read_frame itself (any queue of physical reads made of
+   bytes): it is preserved, and whenever read_frame returns RBlocked, i.e. is about to call
+   io.read, the writable slice is not empty.  rs_inv = end <= capacity, trailer awaited <= 282,
+   state not ReadBody _ 0, buffered bytes are bytes; it holds in rstate_init. *)
+Theorem C06_read_frame_inv : forall cfg, (293 <= r_cap cfg)%nat -> forall reads rs rs' reads' r,
+  rs_inv cfg rs -> Forall bytes_ok reads -> read_frame cfg reads rs = (rs', reads', r) ->
+  rs_inv cfg rs' /\ Forall bytes_ok reads' /\ (r = RBlocked -> (0 < r_writable cfg rs')%nat).
+Proof. exact read_frame_inv. Qed.
+Print Assumptions C06_read_frame_inv.
+
+Example C06_rs_inv_init : forall cfg, rs_inv cfg rstate_init.
+Proof. exact rs_inv_init. Qed.
